@@ -63,22 +63,29 @@ Fixpoint index_esc (e d : bytes) {struct d} : option N :=
 Definition index_end (d e : bytes) (escape : bool) : option N :=
   if escape then index_esc e d else index e d.
 
-(* firstMatch(data, flags): range over flags; replace when pos > position || pos == -1 *)
-Fixpoint fm_go (data : bytes) (flags : list bytes) (i : nat) (acc : option (N * nat)) : option (N * nat) :=
+(* firstMatch(data, flags) (fix 73a5c57): walk the data once; at each position take the first
+   flag, in table order, that is a prefix of the rest; stop at the first position that has one.
+     for pos = 0; pos < len(data); pos++ { for index = range flags {
+       if len(flag) > 0 && flag[0] != data[pos] { continue }
+       if bytes.HasPrefix(data[pos:], flag) { return } } }
+     return -1, -1 *)
+Fixpoint find_flag (d : bytes) (flags : list bytes) (i : nat) : option nat :=
   match flags with
-  | [] => acc
+  | [] => None
   | f :: rest =>
-      let acc' := match index f data with
-                  | Some position =>
-                      match acc with
-                      | None => Some (position, i)
-                      | Some (pos, _) => if position <? pos then Some (position, i) else acc
-                      end
-                  | None => acc
-                  end in
-      fm_go data rest (S i) acc'
+      let skip := match f, d with c0 :: _, c :: _ => negb (c0 =? c) | _, _ => false end in
+      if skip then find_flag d rest (S i)
+      else if is_prefix f d then Some i else find_flag d rest (S i)
   end.
-Definition first_match (data : bytes) (flags : list bytes) : option (N * nat) := fm_go data flags O None.
+Fixpoint fm_at (d : bytes) (flags : list bytes) (pos : N) : option (N * nat) :=
+  match d with
+  | [] => None
+  | _ :: t => match find_flag d flags O with
+              | Some i => Some (pos, i)
+              | None => fm_at t flags (N.succ pos)
+              end
+  end.
+Definition first_match (data : bytes) (flags : list bytes) : option (N * nat) := fm_at data flags 0.
 
 (* checked accessors: an out-of-range index or slice bound is a Go run-time panic *)
 Definition tbl {A} (l : list A) (i : nat) (site : N) : res A :=
@@ -343,6 +350,128 @@ Fixpoint strip_go (fuel : nat) (d : bytes) (out : list bytes) : list bytes * res
 Definition strip (d : bytes) : bytes * res unit :=
   let '(out, r) := strip_go (S (S (length d))) d [] in (flat out, r).
 
+(* ---- NewCommentReader with caller-supplied marker tables ----
+   The split function and the reader are the same code for every table; the definitions above are
+   the instance for the tables of NewJsonPlusReader, about which the theorems are stated.  The
+   generic versions below take the tables as an argument (split_t) and the split function as an
+   argument (scan_tok_g / read_p_g / consume_g: the bodies of scan_tok / read_p / consume); they
+   are what is run against NewCommentReader with other tables, and instantiated with the JSON+
+   tables they are the definitions above (Proofs/JsonPlusRead.v, generic_is_json). *)
+Record tables := { t_start : list bytes; t_end : list bytes; t_isc : list bool; t_req : list bool }.
+Definition json_tables : tables :=
+  {| t_start := start_matches; t_end := end_matches; t_isc := is_comments; t_req := required_matches |}.
+
+Definition split_t (tb : tables) (data : bytes) (atEOF : bool) : res split_res :=
+  if atEOF && is_nil data then Ok More
+  else match first_match data (t_start tb) with
+  | None => if atEOF then Ok (Tok (lenZ data) data) else Ok More
+  | Some (pos, i) =>
+      let* sm := tbl (t_start tb) i 1 in
+      let* lft := slice_from data (Z.of_N pos + lenZ sm)%Z 2 in
+      let* em := tbl (t_end tb) i 3 in
+      let* isc := tbl (t_isc tb) i 4 in
+      let* extra :=
+         match index_end lft em (negb isc) with
+         | Some x => Ok (Some (Z.of_N x))
+         | None =>
+             if atEOF then
+               let* req := tbl (t_req tb) i 5 in
+               if req then Err E_NOTMATCH else Ok (Some (lenZ lft - lenZ em)%Z)
+             else Ok None
+         end in
+      match extra with
+      | None => Ok More
+      | Some extra =>
+          let advance := (Z.of_N pos + lenZ sm + extra + lenZ em)%Z in
+          if negb isc then let* t := slice_to data advance 7 in Ok (Tok advance t)
+          else let* t := slice_to data (Z.of_N pos) 8 in Ok (Tok advance t)
+      end
+  end.
+
+Section Generic.
+  Variable splitf : bytes -> bool -> res split_res.
+
+  Fixpoint scan_tok_g (fuel : nat) (st : sc) (segs : list bytes) (fin : N) (dt : bool) (serr : option N)
+    : sres * nat :=
+    match fuel with
+    | O => (SEnd (Err E_FUEL), O)
+    | S fuel' =>
+        let at_eof := match serr with Some _ => true | None => false end in
+        let sp := if (0 <? plen st) || at_eof then splitf (pend st) at_eof else Ok More in
+        match sp with
+        | Panic s => (SEnd (Panic s), fuel')
+        | Err e => (SEnd (Err (set_err serr e)), fuel')
+        | Ok (Tok adv tok) =>
+            if (adv <? 0)%Z || (Z.of_N (plen st) <? adv)%Z then (SEnd (Err (set_err serr E_ADVANCE)), fuel')
+            else if (adv =? 0)%Z then (SEnd (Err E_STUCK), fuel')
+            else
+              let n := Z.to_N adv in
+              let st' := {| pend := skipn (N.to_nat n) (pend st); plen := plen st - n;
+                            start := start st + n; cap := cap st |} in
+              match tok with
+              | [] => scan_tok_g fuel' st' segs fin dt serr
+              | _ :: _ => (STok tok st' segs serr, fuel')
+              end
+        | Ok More =>
+            match serr with
+            | Some e => (SEnd (if e =? 0 then Ok tt else Err e), fuel')
+            | None =>
+                let st1 := if (0 <? start st) && ((start st + plen st =? cap st) || (cap st / 2 <? start st))
+                           then {| pend := pend st; plen := plen st; start := 0; cap := cap st |} else st in
+                if (start st1 + plen st1 =? cap st1) && ((max_token <=? cap st1) || (max_int / 2 <? cap st1))
+                then (SEnd (Err E_TOOLONG), fuel')
+                else
+                  let st2 := if start st1 + plen st1 =? cap st1
+                             then let ns := cap st1 * 2 in
+                                  let ns := if ns =? 0 then start_buf_size else ns in
+                                  {| pend := pend st1; plen := plen st1; start := 0; cap := N.min ns max_token |}
+                             else st1 in
+                  let space := cap st2 - (start st2 + plen st2) in
+                  let '(got, segs', serr') := read_more space 0 segs fin dt in
+                  let st3 := {| pend := pend st2 ++ got; plen := plen st2 + lenN got;
+                                start := start st2; cap := cap st2 |} in
+                  scan_tok_g fuel' st3 segs' fin dt serr'
+            end
+        end
+    end.
+
+  Definition read_p_g (fin : N) (dt : bool) (n : N) (s : rstate) : bytes * rd_status * rstate :=
+    match rb s with
+    | _ :: _ =>
+        let '(a, r) := deliver n (rb s) in
+        (a, RNil, {| rb := r; rst := rst s; rsegs := rsegs s; rserr := rserr s; rfuel := rfuel s |})
+    | [] =>
+        match scan_tok_g (rfuel s) (rst s) (rsegs s) fin dt (rserr s) with
+        | (STok tok st' segs' serr', f') =>
+            let failed := match serr' with Some e => negb (e =? 0) | None => false end in
+            if failed then
+              ([], REnd (Err (match serr' with Some e => e | None => 0 end)),
+               {| rb := tok; rst := st'; rsegs := segs'; rserr := serr'; rfuel := f' |})
+            else
+              let '(a, r) := deliver n tok in
+              (a, RNil, {| rb := r; rst := st'; rsegs := segs'; rserr := serr'; rfuel := f' |})
+        | (SEnd r, f') =>
+            ([], REnd r, {| rb := []; rst := rst s; rsegs := rsegs s; rserr := rserr s; rfuel := f' |})
+        end
+    end.
+
+  Fixpoint consume_g (fin : N) (dt : bool) (rds : list N) (s : rstate) (acc : list bytes)
+    : list bytes * option (res unit) :=
+    match rds with
+    | [] => (acc, None)
+    | n :: t =>
+        let '(a, e, s') := read_p_g fin dt n s in
+        match e with
+        | RNil => consume_g fin dt t s' (push a acc)
+        | REnd r => (push a acc, Some r)
+        end
+    end.
+End Generic.
+
+Definition reader_rd_t (tb : tables) (segs : list bytes) (fin : N) (dt : bool) (rds : list N)
+  : bytes * option (res unit) :=
+  let '(out, r) := consume_g (split_t tb) fin dt rds (rstate0 segs) [] in (flat out, r).
+
 (* ---- documents: token lists decorated with comments ---- *)
 Inductive item :=
 | Run (b : bytes)      (* punctuation, numbers, literals, white space: no quote, apostrophe, slash *)
@@ -392,7 +521,8 @@ Definition doc_ok (d : list item) (tail : option bytes) : bool :=
 
 (* ---- harness interface ----
    case (0 (xseg ...) fin rd dt)                  raw input, explicit read segments
-   case (1 (item ...) tail (len ...) fin rd dt)   document; item = (0 xrun)|(1 xstr)|(2 xline)|(3 xblock),
+   case (1 (item ...) tail (len ...) fin rd dt)
+   case (2 tables (xseg ...) fin rd dt)           NewCommentReader with caller-supplied tables (see sx_tables)   document; item = (0 xrun)|(1 xstr)|(2 xline)|(3 xblock),
                                                   tail = () | (xbody); the rendering is cut into
                                                   segments of the given lengths (rest = last segment)
    dt <> 0: the last bytes are returned together with the final error.
@@ -461,6 +591,23 @@ Definition obs_rd (r : bytes * option (res unit)) (extra : list sx) : sx :=
   | (o, None) => SL (SZ 4 :: SB o :: extra)        (* the consumer stopped reading first *)
   end.
 
+Fixpoint sx_bools (l : list sx) : option (list bool) :=
+  match l with
+  | [] => Some []
+  | SZ b :: t => match sx_bools t with Some r => Some (negb (b =? 0)%Z :: r) | None => None end
+  | _ => None
+  end.
+(* tables = ((xstart ...) (xend ...) (iscomment ...) (required ...)), the four arguments of NewCommentReader *)
+Definition sx_tables (l : list sx) : option tables :=
+  match l with
+  | [SL a; SL b; SL c; SL d] =>
+      match sx_segs a, sx_segs b, sx_bools c, sx_bools d with
+      | Some a', Some b', Some c', Some d' => Some {| t_start := a'; t_end := b'; t_isc := c'; t_req := d' |}
+      | _, _, _, _ => None
+      end
+  | _ => None
+  end.
+
 Definition run_c17 (c : sx) : sx :=
   match c with
   | SL [SZ 0; SL segs; SZ fin; rd; SZ dt] =>
@@ -481,6 +628,17 @@ Definition run_c17 (c : sx) : sx :=
               if wf_bytesb text
               then obs_rd (reader_rd (cut lens text) (Z.to_N fin) (negb (dt =? 0)%Z) rds) [sbool (doc_ok d tail)]
               else bad_case
+          | None => bad_case
+          end
+      | _, _ => bad_case
+      end
+  | SL [SZ 2; SL tbs; SL segs; SZ fin; rd; SZ dt] =>
+      (* NewCommentReader with the given tables *)
+      match sx_tables tbs, sx_segs segs with
+      | Some tb, Some sg =>
+          match rds_of rd (concat sg) with
+          | Some rds =>
+              if wf_bytesb (concat sg) then obs_rd (reader_rd_t tb sg (Z.to_N fin) (negb (dt =? 0)%Z) rds) [] else bad_case
           | None => bad_case
           end
       | _, _ => bad_case
